@@ -123,7 +123,7 @@ func measureArity(w *world) [256]int {
 				code = append(code, push1(0)...)
 			}
 			code = append(code, byte(b))
-			r := run(w, w.open(code), common.Hash{}, code, config{entry: entCall, gas: 100000, value: 0}, false)
+			r := run(w, w.open(code), common.Hash{}, code, config{entry: entCall, gas: 100000, value: 0}, modeFresh)
 			if r.panicked || !strings.HasPrefix(r.err, "stack underflow") {
 				ar[b] = k
 				break
@@ -676,7 +676,7 @@ func main() {
 	r.Set("distinct_behaviour_signatures", len(sigs))
 	r.Set("violation_cases", total)
 	r.Set("workers", nw)
-	r.Set("rule", "every program of every layer x every configuration of that layer is executed on the real EVM twice from equal pre-states (observed run with probing StateDB + tracer, plain run); "+
+	r.Set("rule", "every program of every layer x every configuration of that layer is executed on the real EVM twice from equal pre-states (observed run on a fresh EVM with probing StateDB + tracer; plain run on a long-lived EVM re-used after Reset()+SetToken() as app/state_transition.go does; a third, fresh plain run only to classify a difference); "+
 		"oracles: no panic / no process death; interpreter steps <= gas + gas/256 + 2000; gas left (+ fee refund the application adds) <= gas supplied; both runs identical in return data, gas, error, fee refunds, balance records, "+
 		"explicit world delta and state root; a failing outermost frame leaves an empty delta and the pre-state root; every nested frame that fails is reverted and the world after RevertToSnapshot equals the world at its Snapshot; "+
 		"non-trivial = behaviour signatures (error class, changed field classes, frames, return size, reverts, balance records) other than an immediate stack underflow / invalid opcode")
@@ -684,7 +684,7 @@ func main() {
 	r.Assume("the explicit world dump is the set of state objects the StateDB holds in memory (add-only hook state.VerifLoaded) compared field by field with an untouched twin; objects not in memory equal the committed pre-state by construction of StateDB; the state root is compared in addition")
 	r.Assume("IntermediateRoot(false) as the application calls it; database = state.NewDatabase over the copying MemDB")
 	r.Assume("the observed run uses evm.Config{Debug:true, Tracer}; it is compared against the plain run of the same case, so the tracer path is not trusted")
-	r.Assume("wall-clock is used only as a 20 s safety net per case; the termination oracle is the deterministic step budget")
+	r.Assume("wall-clock is used only as a 120 s safety net per case; the termination oracle is the deterministic step budget")
 	r.Assume("types.SaveBalanceRecord = true (node option save_balance_record) so that the balance records an execution emits are real and comparable between the two runs")
 	r.Assume("WASM contracts, the app-level state transition around the EVM (buyGas, refundGas, nonce), precompile internals and tracing APIs are outside this check")
 	r.Finish()
